@@ -94,7 +94,7 @@ Lemma pop_reference_loop_pne : forall fuel acc s r s', wst_ok inp s -> wlive s -
   pop_reference_loop fuel acc s = WOk r s' -> pne s'.
 Proof.
   induction fuel as [|f IH]; intros acc s r s' Hok Hl; cbn [pop_reference_loop]; [discriminate|].
-  destruct (pop_ident s) as [i s1|t s1|p|] eqn:E; try discriminate.
+  destruct (pop_ident s) as [i s1|t wet s1|p|] eqn:E; try discriminate.
   - destruct (pop_ident_pne s i s1 Hok Hl E) as [Hp Hst].
     destruct (tt_eqb (next_type s1) DOT).
     + destruct (pop_token_spec inp s1 (ws_ok _ _ _ Hst) (wstep_live _ _ _ Hst)) as (t2 & s2 & E2 & Hst2 & _).
@@ -123,7 +123,7 @@ Lemma pop_elems_out pv (bound : nat) op :
   pop_elems pv fuel2 op acc s2 = WOk v s' -> value_out v s'.
 Proof.
   intros Hpv. induction fuel2 as [|f2 IH]; intros acc s2 v s' Hok Hl Hb; cbn [pop_elems]; [discriminate|].
-  destruct (pv s2) as [v0 s3|t s3|p|] eqn:Ev; try discriminate. cbn [wbind].
+  destruct (pv s2) as [v0 s3|t wet s3|p|] eqn:Ev; try discriminate. cbn [wbind].
   destruct (Hpv s2 v0 s3 Hok Hl Hb Ev) as [_ H23].
   destruct (pop_token_spec inp s3 (ws_ok _ _ _ H23) (wstep_live _ _ _ H23)) as (t4 & s4 & E4 & H34 & _ & Hty4 & _ & Hte4).
   destruct (tt_eqb (next_type s3) COMMA) eqn:Ec.
@@ -146,11 +146,11 @@ Proof.
   destruct (tt_eqb (next_type s) IDENT) eqn:E1.
   { apply tt_eqb_true in E1.
     pose proof (pop_reference_spec inp s Hok Hl (or_introl E1)) as Hs.
-    destruct (pop_reference s) as [r s1|t s1|p|] eqn:Er; try discriminate. cbn [wbind]. intros [= <- <-].
+    destruct (pop_reference s) as [r s1|t wet s1|p|] eqn:Er; try discriminate. cbn [wbind]. intros [= <- <-].
     cbn in Hs. destruct Hs as (_ & (_ & _ & Hre) & _).
     split; [eapply pop_reference_pne; eauto|exact Hre]. }
   destruct (is_literal (next_type s)) eqn:E2.
-  { destruct (pop_token s) as [t s1|t s1|p|] eqn:Et; try discriminate. cbn [wbind]. intros [= <- <-].
+  { destruct (pop_token s) as [t s1|t wet s1|p|] eqn:Et; try discriminate. cbn [wbind]. intros [= <- <-].
     destruct (pop_token_pne s t s1 Hok Hl Et) as [Hp Hh]; try (intros H; rewrite H in E2; discriminate).
     split; [exact Hp|symmetry; exact Hh]. }
   destruct (tt_eqb (next_type s) LBRACK) eqn:E3; cycle 1.
@@ -162,7 +162,7 @@ Proof.
   specialize (Hlen Hr).
   destruct (N.leb max_value_depth depth); [discriminate|].
   destruct (tt_eqb (next_type s1) RBRACK) eqn:E4.
-  { destruct (pop_token s1) as [t2 s2|t2 s2|p|] eqn:E2'; try discriminate. cbn [wbind]. intros [= <- <-].
+  { destruct (pop_token s1) as [t2 s2|t2 wet2 s2|p|] eqn:E2'; try discriminate. cbn [wbind]. intros [= <- <-].
     apply tt_eqb_true in E4.
     destruct (pop_token_pne s1 t2 s2 (ws_ok _ _ _ Hst) (wstep_live _ _ _ Hst) E2') as [Hp Hh];
       [rewrite E4; discriminate|rewrite E4; discriminate|].
@@ -183,16 +183,16 @@ Proof.
       wbind (pop_reference s0) (fun r s1 => WOk (mkTag mk mt (TagRef r) (ref_start r) (ref_end r)) s1)
     | STRING =>
       wbind (pop_value_top s0) (fun v s1 => WOk (mkTag mk mt (TagVal v) (value_start v) (value_end v)) s1)
-    | _ => wbind (pop_token s0) (fun t s1 => WErr t s1)
+    | _ => wbind (pop_token s0) (fun t s1 => WErr t (Expected exp_tag) s1)
     end = WOk t s' -> pne s').
   { intros mk mt s0 Hok0 Hl0.
     assert (Hr : wbind (pop_reference s0) (fun r s1 => WOk (mkTag mk mt (TagRef r) (ref_start r) (ref_end r)) s1) = WOk t s' -> pne s').
-    { destruct (pop_reference s0) as [r s1|t1 s1|p|] eqn:Er; try discriminate. cbn [wbind]. intros [= _ <-].
+    { destruct (pop_reference s0) as [r s1|t1 wet1 s1|p|] eqn:Er; try discriminate. cbn [wbind]. intros [= _ <-].
       eapply pop_reference_pne; eauto. }
-    assert (Hd : wbind (pop_token s0) (fun t s1 => WErr (A:=tag) t s1) = WOk t s' -> pne s').
+    assert (Hd : wbind (pop_token s0) (fun t s1 => WErr (A:=tag) t (Expected exp_tag) s1) = WOk t s' -> pne s').
     { destruct (pop_token s0); discriminate. }
     destruct (next_type s0); auto.
-    unfold pop_value_top. destruct (pop_value (S (length (wrest s0))) 0%N s0) as [v s1|t1 s1|p|] eqn:Ev; try discriminate.
+    unfold pop_value_top. destruct (pop_value (S (length (wrest s0))) 0%N s0) as [v s1|t1 wet1 s1|p|] eqn:Ev; try discriminate.
     cbn [wbind]. intros [= _ <-]. apply (pop_value_out _ _ _ _ _ Hok0 Hl0 (Nat.lt_succ_diag_r _) Ev). }
   destruct (pop_token_spec inp s Hok Hl) as (t0 & s1 & E & Hst & _).
   pose proof (Hafter MarkNone None s Hok Hl) as Hnone.
@@ -202,7 +202,7 @@ Proof.
         wbind (pop_reference s1) (fun r s2 => WOk (mkTag mk (Some t0) (TagRef r) (ref_start r) (ref_end r)) s2)
       | STRING =>
         wbind (pop_value_top s1) (fun v s2 => WOk (mkTag mk (Some t0) (TagVal v) (value_start v) (value_end v)) s2)
-      | _ => wbind (pop_token s1) (fun t s2 => WErr t s2)
+      | _ => wbind (pop_token s1) (fun t s2 => WErr t (Expected exp_tag) s2)
       end) = WOk t s' -> pne s').
   { intros mk. rewrite E. cbn [wbind]. apply Hafter; [apply Hst|eapply wstep_live; eauto]. }
   cbv zeta. destruct (next_type s) eqn:En; try exact Hnone; apply Hmark.
@@ -214,7 +214,7 @@ Proof.
   induction fuel as [|f IH]; intros acc s ts s' Hok Hl Hp; cbn [tags_loop]; [discriminate|].
   destruct (can_start_tag (next_type s)); [|intros [= _ <-]; exact Hp].
   pose proof (pop_tag_spec inp s Hok Hl) as Hs. unfold tag_res in Hs.
-  destruct (pop_tag s) as [t s1|t s1|p|] eqn:Et; try discriminate. cbn [wbind]. cbn in Hs. destruct Hs as (Hst & _).
+  destruct (pop_tag s) as [t s1|t wet s1|p|] eqn:Et; try discriminate. cbn [wbind]. cbn in Hs. destruct Hs as (Hst & _).
   apply IH; [apply Hst|eapply wstep_live; eauto|eapply pop_tag_pne; eauto].
 Qed.
 
@@ -226,7 +226,7 @@ Proof.
   destruct (pop_token_spec inp s Hok Hl) as (t0 & s0 & E & Hst & _).
   rewrite E. cbn [wbind].
   pose proof (pop_tag_spec inp s0 (ws_ok _ _ _ Hst) (wstep_live _ _ _ Hst)) as Hs. unfold tag_res in Hs.
-  destruct (pop_tag s0) as [t s1|t s1|p|] eqn:Et; try discriminate. cbn [wbind]. cbn in Hs. destruct Hs as (Hst1 & _).
+  destruct (pop_tag s0) as [t s1|t wet s1|p|] eqn:Et; try discriminate. cbn [wbind]. cbn in Hs. destruct Hs as (Hst1 & _).
   apply IH; [apply Hst1|eapply wstep_live; eauto|].
   eapply pop_tag_pne; [apply Hst|eapply wstep_live; eauto|exact Et].
 Qed.
@@ -243,9 +243,9 @@ Proof.
   intros Hok Hl Hls. unfold walk_value_assign.
   destruct (pop_token_spec inp s Hok Hl) as (t & s1 & E & Hst & _).
   rewrite E. cbn [wbind]. destruct (negb (tt_eqb (ty t) ASSIGN)); [discriminate|].
-  destruct (pop_value_top s1) as [v s2|t2 s2|p|] eqn:Ev; try discriminate. cbn [wbind].
+  destruct (pop_value_top s1) as [v s2|t2 wet2 s2|p|] eqn:Ev; try discriminate. cbn [wbind].
   destruct (pop_value_top_out s1 v s2 (ws_ok _ _ _ Hst) (wstep_live _ _ _ Hst) Ev) as [[Hp Hve] H12].
-  destruct (end_statement s2) as [c s3|t3 s3|p|] eqn:Ee; try discriminate. cbn [wbind].
+  destruct (end_statement s2) as [c s3|t3 wet3 s3|p|] eqn:Ee; try discriminate. cbn [wbind].
   intros [= <- <-]. cbn [frag_end aend]. rewrite Hve.
   apply (end_statement_line s2 c s3); auto; [apply H12|eapply wstep_live; eauto|].
   eapply wstep_lst; [exact H12|]. eapply wstep_lst; eauto.
@@ -263,7 +263,7 @@ Lemma walk_statement_line s f s' : wst_ok inp s -> wlive s -> lst_ok s ->
 Proof.
   intros Hok Hl Hls Hn. unfold walk_statement.
   pose proof (pop_reference_spec inp s Hok Hl Hn) as Href.
-  destruct (pop_reference s) as [r s1|t s1|p|] eqn:Er; try discriminate. cbn [wbind]. cbn in Href.
+  destruct (pop_reference s) as [r s1|t wet s1|p|] eqn:Er; try discriminate. cbn [wbind]. cbn in Href.
   destruct Href as (H01 & _ & _).
   pose proof (pop_reference_pne s r s1 Hok Hl Er) as Hp1.
   assert (Hok1 := ws_ok _ _ _ H01). assert (Hl1 := wstep_live _ _ _ H01). assert (Hls1 := wstep_lst _ _ H01 Hls).
@@ -274,12 +274,12 @@ Proof.
     destruct (negb (tt_eqb (next_type s2) ASSIGN)); [destruct (pop_token s2); discriminate|].
     apply walk_value_assign_line; [apply H12|eapply wstep_live; eauto|eapply wstep_lst; eauto]. }
   pose proof (tags_loop_spec inp (S (length (wrest s1))) [] s1 (hw s) Hok1 Hl1) as Ht.
-  destruct (tags_loop (S (length (wrest s1))) [] s1) as [tags s2|t s2|p|] eqn:Et; try discriminate. cbn [wbind].
+  destruct (tags_loop (S (length (wrest s1))) [] s1) as [tags s2|t wet s2|p|] eqn:Et; try discriminate. cbn [wbind].
   destruct Ht as (A2 & _); [apply H01|constructor|lia|].
   pose proof (tags_loop_pne _ _ _ _ _ Hok1 Hl1 Hp1 Et) as Hp2.
   destruct (step_or_same_ok s1 s2 Hok1 Hl1 Hls1 A2) as (Hok2 & Hl2 & Hls2).
   pose proof (quals_loop_spec inp (S (length (wrest s2))) [] s2 (hw s2) Hok2 Hl2) as Hq.
-  destruct (quals_loop (S (length (wrest s2))) [] s2) as [quals s3|t s3|p|] eqn:Eq; try discriminate. cbn [wbind].
+  destruct (quals_loop (S (length (wrest s2))) [] s2) as [quals s3|t wet s3|p|] eqn:Eq; try discriminate. cbn [wbind].
   destruct Hq as (A3 & _); [apply pos_le_refl|constructor|lia|].
   pose proof (quals_loop_pne _ _ _ _ _ Hok2 Hl2 Hp2 Eq) as Hp3.
   destruct (step_or_same_ok s2 s3 Hok2 Hl2 Hls2 A3) as (Hok3 & Hl3 & Hls3).
@@ -288,12 +288,12 @@ Proof.
   - (* EOF *) intros [= <- <-]. reflexivity.
   - (* EOL *) intros [= <- <-]. reflexivity.
   - (* COMMENT *)
-    destruct (end_statement s3) as [c s5|t5 s5|p|] eqn:Ee; try discriminate. cbn [wbind].
+    destruct (end_statement s3) as [c s5|t5 wet5 s5|p|] eqn:Ee; try discriminate. cbn [wbind].
     intros [= <- <-]. cbn [frag_end hend]. apply (end_statement_line s3 c s5); auto.
   - (* DESCRIPTION *) rewrite E4. cbn [wbind]. intros [= <- <-]. reflexivity.
   - (* LBRACE *)
     rewrite E4. cbn [wbind].
-    destruct (end_statement s4) as [c s5|t5 s5|p|] eqn:Ee; try discriminate. cbn [wbind].
+    destruct (end_statement s4) as [c s5|t5 wet5 s5|p|] eqn:Ee; try discriminate. cbn [wbind].
     intros [= <- <-]. cbn [frag_end hend].
     apply (end_statement_line s4 c s5); [apply H34|eapply wstep_live; eauto|eapply wstep_lst; eauto| |exact Ee].
     destruct (pop_token_pne s3 t4 s4 Hok3 Hl3 E4) as [Hp4 _]; [rewrite En3; discriminate|rewrite En3; discriminate|exact Hp4].
@@ -317,14 +317,14 @@ Proof.
   intros Hok Hl Hls. unfold next_fragment.
   destruct (pop_token_spec inp s Hok Hl) as (t & s1 & E & Hst & _ & _ & _ & Hte).
   destruct (next_type s) eqn:En; try (rewrite E; discriminate).
-  - (* IDENT *) destruct (walk_statement s) as [f0 s0|t0 s0|p|] eqn:Ew; try discriminate. cbn [wbind].
+  - (* IDENT *) destruct (walk_statement s) as [f0 s0|t0 wet0 s0|p|] eqn:Ew; try discriminate. cbn [wbind].
     intros [= <- <-]. eapply walk_statement_line; eauto.
-  - (* BOOL *) destruct (walk_statement s) as [f0 s0|t0 s0|p|] eqn:Ew; try discriminate. cbn [wbind].
+  - (* BOOL *) destruct (walk_statement s) as [f0 s0|t0 wet0 s0|p|] eqn:Ew; try discriminate. cbn [wbind].
     intros [= <- <-]. eapply walk_statement_line; eauto.
   - (* COMMENT *) rewrite E. cbn [wbind]. intros [= <- <-]. cbn [frag_end]. rewrite Hte. reflexivity.
   - (* BLOCK_COMMENT *) rewrite E. cbn [wbind]. intros [= <- <-]. cbn [frag_end]. rewrite Hte. reflexivity.
   - (* DESCRIPTION *)
-    unfold pop_description. destruct (pop_description_loop (S (length (wrest s))) [] s) as [d s0|t0 s0|p|] eqn:Ed; try discriminate.
+    unfold pop_description. destruct (pop_description_loop (S (length (wrest s))) [] s) as [d s0|t0 wet0 s0|p|] eqn:Ed; try discriminate.
     cbn [wbind]. intros [= <- <-]. cbn [frag_end]. rewrite (pop_description_loop_end _ _ _ _ _ Hok Hl Ed). reflexivity.
   - (* RBRACE *) rewrite E. cbn [wbind]. intros [= <- <-]. cbn [frag_end]. rewrite Hte. reflexivity.
 Qed.
@@ -359,7 +359,7 @@ Proof.
   assert (Hr : wrest s <> []) by (apply (next_type_not_eof inp); auto).
   assert (Hl : wlive s) by (left; exact Hr).
   pose proof (next_fragment_spec inp s Hok Hl) as Hn.
-  destruct (next_fragment s) as [fo s1|t s1|p|] eqn:En; cbn in Hn; try contradiction.
+  destruct (next_fragment s) as [fo s1|t wet s1|p|] eqn:En; cbn in Hn; try contradiction.
   - destruct Hn as (H01 & _ & Hlen). specialize (Hlen Hr).
     specialize (IH s1). destruct (walk_fragments_loop f true s1) as [fs1 ds1|p|] eqn:Ew; try discriminate.
     intros Heq t Hin Hty.
